@@ -746,18 +746,43 @@ func init() {
 				if site.Parent() != merge {
 					continue
 				}
-				mk, ok := argOfType(site.Common(), segSliceType).(*ssa.MakeSlice)
-				if !ok {
-					continue
-				}
-				x, name, ok := lenOrCapOf(mk.Len)
 				var segsParam *ssa.Parameter
 				for _, p := range merge.Params {
 					if strings.HasPrefix(p.Type().String(), "[]") && strings.HasSuffix(p.Type().String(), ".Segment") {
 						segsParam = p
 					}
 				}
-				if !ok || name != "len" || segsParam == nil || x != ssa.Value(segsParam) {
+				segArg := argOfType(site.Common(), segSliceType)
+				var lenOf ssa.Value = segsParam
+				// the conversion loop may sit in a helper that is handed the input segments
+				if hc, isCall := segArg.(*ssa.Call); isCall && segsParam != nil {
+					if h := hc.Call.StaticCallee(); h != nil && c.inRoot(h) && h.Blocks != nil && h.Signature.Results().Len() == 1 {
+						for i, a := range hc.Call.Args {
+							if a == ssa.Value(segsParam) && i < len(h.Params) {
+								lenOf = h.Params[i]
+							}
+						}
+						var res ssa.Value
+						same := true
+						for _, hb := range h.Blocks {
+							if ret, isRet := hb.Instrs[len(hb.Instrs)-1].(*ssa.Return); isRet && hb != h.Recover {
+								if res != nil && ret.Results[0] != res {
+									same = false
+								}
+								res = ret.Results[0]
+							}
+						}
+						if same && res != nil {
+							segArg = res
+						}
+					}
+				}
+				mk, ok := segArg.(*ssa.MakeSlice)
+				if !ok {
+					continue
+				}
+				x, name, ok := lenOrCapOf(mk.Len)
+				if !ok || name != "len" || segsParam == nil || x != lenOf {
 					continue
 				}
 				if dp := paramOfType(merge, dropsSliceType); dp == nil || argOfType(site.Common(), dropsSliceType) != ssa.Value(dp) {
